@@ -1,9 +1,9 @@
 package main
 
 import (
-	"go/token"
 	"fmt"
 	"go/constant"
+	"go/token"
 	"go/types"
 	"regexp"
 	"strconv"
@@ -847,7 +847,6 @@ func typeHasPointerLike(t types.Type, seen map[types.Type]bool) bool {
 	return true
 }
 
-
 // rootedInOwnAlloc: the address is a local of the function or a field / array element of one
 // (the elements of a composite literal are stored that way); an element of a slice value is not.
 func rootedInOwnAlloc(a ssa.Value) bool {
@@ -867,7 +866,6 @@ func rootedInOwnAlloc(a ssa.Value) bool {
 		}
 	}
 }
-
 
 // throughScalarPtrParam: the address is the value of a parameter of type pointer-to-basic (read back
 // from the parameter's own slot). Whether the argument really is the address of a caller's local is
